@@ -231,11 +231,20 @@ func (c *gen) fill(m protoreflect.Message, depth int) {
 			mp := m.Mutable(fd).Map()
 			n := 1 // a single entry: map order is not part of the property
 			for j := 0; j < n; j++ {
+				// map entries and list elements, unlike singular fields, are written even when
+				// they hold the default value ("" / 0 / empty message): generate those too
 				k := c.scalar(fd.MapKey(), fopts{}).MapKey()
+				if c.g.Chance(1, 6) {
+					k = fd.MapKey().Default().MapKey()
+				}
 				if fd.MapValue().Kind() == protoreflect.MessageKind {
 					v := mp.NewValue()
-					c.fill(v.Message(), depth+1)
+					if !c.g.Chance(1, 4) {
+						c.fill(v.Message(), depth+1)
+					}
 					mp.Set(k, v)
+				} else if c.g.Chance(1, 3) {
+					mp.Set(k, defaultOf(fd.MapValue()))
 				} else {
 					mp.Set(k, c.scalar(fd.MapValue(), fopts{}))
 				}
@@ -248,6 +257,8 @@ func (c *gen) fill(m protoreflect.Message, depth int) {
 					v := l.NewElement()
 					c.fill(v.Message(), depth+1)
 					l.Append(v)
+				} else if o.customType == "" && c.g.Chance(1, 5) {
+					l.Append(defaultOf(fd))
 				} else {
 					l.Append(c.scalar(fd, o))
 				}
@@ -260,6 +271,19 @@ func (c *gen) fill(m protoreflect.Message, depth int) {
 			m.Set(fd, v)
 		}
 	}
+}
+
+// defaultOf is the zero value of a scalar field kind ("" / 0 / false / first enum value).
+func defaultOf(fd protoreflect.FieldDescriptor) protoreflect.Value {
+	switch fd.Kind() {
+	case protoreflect.StringKind:
+		return protoreflect.ValueOfString("")
+	case protoreflect.BytesKind:
+		return protoreflect.ValueOfBytes([]byte{})
+	case protoreflect.EnumKind:
+		return protoreflect.ValueOfEnum(0)
+	}
+	return fd.Default()
 }
 
 // suspect reports whether values of md cannot be expected to cross-decode because some
